@@ -348,7 +348,7 @@ func Run(cfg Config) (int, error) {
 			return false
 		}
 		if out == "accept" && len(sigs) > 0 { // tampering with any signed field must invalidate
-			for f := 0; f < 20; f++ {
+			for f := 0; f < 24; f++ {
 				d2 := rg.d
 				switch f {
 				case 0:
@@ -409,6 +409,20 @@ func Run(cfg Config) (int, error) {
 					d2.slot = rg.d.slot + 1<<(32+31*uint(f-16))
 				case 18, 19:
 					d2.txPointer = rg.d.txPointer + 1<<(32+31*uint(f-18))
+				case 20, 21, 22, 23: // the boundary between two neighbouring identities moved: the concatenation of all identities and their number stay the same
+					if len(d2.ids) < 2 || len(d2.ids[0]) == 0 {
+						continue
+					}
+					ids := append([][]byte{}, d2.ids...)
+					a, b := ids[0], ids[1]
+					cat := append(append([]byte{}, a...), b...)
+					cut := []int{len(a) / 2, len(a) + 1, len(cat), 0}[f-20]
+					if cut > len(cat) {
+						continue
+					}
+					ids[0] = append([]byte{}, cat[:cut]...)
+					ids[1] = append([]byte{}, cat[cut:]...)
+					d2.ids = ids
 				default: // an identity repeated in place (the first / the last)
 					if len(d2.ids) == 0 {
 						continue
@@ -421,7 +435,7 @@ func Run(cfg Config) (int, error) {
 					ids = append(ids, append([]byte{}, d2.ids[k]...))
 					d2.ids = append(ids, d2.ids[k+1:]...)
 				}
-				if rg.flavour != "gnosis" && (f == 2 || f == 3 || f >= 16) {
+				if rg.flavour != "gnosis" && (f == 2 || f == 3 || (f >= 16 && f < 20)) {
 					continue
 				}
 				ks2 := rg.keyperSet(threshold)
